@@ -22,7 +22,16 @@ pub enum Chunk {
 #[derive(Serialize, Deserialize, Clone, Debug)]
 pub enum C14Case {
     /// write pool package `base` into a scripted sink
-    Write { base: u16, metadata_only: bool, chunk: Chunk, interrupt_every: u8, fail_at: Option<u32> },
+    Write {
+        base: u16,
+        metadata_only: bool,
+        chunk: Chunk,
+        interrupt_every: u8,
+        fail_at: Option<u32>,
+        /// the sink implements write_vectored itself (gathers up to one chunk across the buffers)
+        #[serde(default)]
+        vectored: bool,
+    },
     /// parse from a scripted source
     Read { base: u16, chunk: Chunk, interrupt_every: u8, bufcap: u16 },
     /// parse a package truncated at `at`
@@ -30,6 +39,7 @@ pub enum C14Case {
 }
 
 struct Sink {
+    vectored: bool,
     data: Vec<u8>,
     chunk: Chunk,
     state: u64,
@@ -77,6 +87,41 @@ impl Write for Sink {
     fn flush(&mut self) -> io::Result<()> {
         Ok(())
     }
+    fn write_vectored(&mut self, bufs: &[io::IoSlice<'_>]) -> io::Result<usize> {
+        if !self.vectored {
+            // the default: the first non-empty buffer through write()
+            let first = bufs.iter().find(|b| !b.is_empty()).map(|b| &**b).unwrap_or(&[][..]);
+            return self.write(first);
+        }
+        self.calls += 1;
+        if self.interrupt_every > 0 && self.calls % self.interrupt_every as u64 == 0 {
+            return Err(io::Error::new(io::ErrorKind::Interrupted, "scripted interrupt"));
+        }
+        let total: usize = bufs.iter().map(|b| b.len()).sum();
+        if total == 0 {
+            return Ok(0);
+        }
+        let mut n = self.next_chunk().min(total);
+        if let Some(f) = self.fail_at {
+            if self.data.len() >= f {
+                return Err(io::Error::new(io::ErrorKind::Other, "scripted failure"));
+            }
+            n = n.min(f - self.data.len());
+        }
+        if n < total {
+            self.short_accepts += 1;
+        }
+        let mut left = n;
+        for b in bufs {
+            let k = left.min(b.len());
+            self.data.extend_from_slice(&b[..k]);
+            left -= k;
+            if left == 0 {
+                break;
+            }
+        }
+        Ok(n)
+    }
 }
 
 struct Source<'a> {
@@ -109,17 +154,24 @@ impl Read for Source<'_> {
     }
 }
 
-const FAMILIES: [(Chunk, u8); 10] = [
-    (Chunk::One, 0),
-    (Chunk::One, 3),
-    (Chunk::Fixed(2), 0),
-    (Chunk::Fixed(3), 2),
-    (Chunk::Fixed(5), 0),
-    (Chunk::Fixed(16), 0),
-    (Chunk::Fixed(17), 5),
-    (Chunk::Seeded(1), 0),
-    (Chunk::Seeded(2), 4),
-    (Chunk::Fixed(4096), 0),
+/// (chunking, interrupt every n-th call, sink has its own write_vectored)
+const FAMILIES: [(Chunk, u8, bool); 16] = [
+    (Chunk::One, 0, false),
+    (Chunk::One, 3, false),
+    (Chunk::Fixed(2), 0, false),
+    (Chunk::Fixed(3), 2, false),
+    (Chunk::Fixed(5), 0, false),
+    (Chunk::Fixed(16), 0, false),
+    (Chunk::Fixed(17), 5, false),
+    (Chunk::Seeded(1), 0, false),
+    (Chunk::Seeded(2), 4, false),
+    (Chunk::Fixed(4096), 0, false),
+    (Chunk::One, 0, true),
+    (Chunk::Fixed(17), 3, true),
+    (Chunk::Fixed(100), 0, true),
+    (Chunk::Fixed(300), 0, true),
+    (Chunk::Fixed(1000), 7, true),
+    (Chunk::Seeded(3), 0, true),
 ];
 
 impl Property for C14 {
@@ -133,13 +185,13 @@ impl Property for C14 {
         C14 { bases }
     }
     fn rule(&self) -> String {
-        format!("fault enumeration: for each of {} small pool packages (unsigned, signed, with files, hand-encoded, rpmbuild-made), Package::write and PackageMetadata::write into scripted sinks - EVERY failure offset 0..len crossed with 10 chunking families (1 byte, fixed 2/3/5/16/17/4096, two seeded random 1..64 sequences, with and without interleaved Interrupted errors), plus the no-failure run of each family; Package::parse from scripted sources (same families x BufReader capacities 1/7/64/8192) and from EVERY truncation offset. Non-trivial = a sink script with a short accept or a fault before the end / a source with short reads / a truncation; distinct by construction.", self.bases.len())
+        format!("fault enumeration: for each of {} small pool packages (unsigned, signed, with files, hand-encoded, rpmbuild-made), Package::write and PackageMetadata::write into scripted sinks - EVERY failure offset 0..len crossed with 16 chunking families (1 byte, fixed 2/3/5/16/17/4096, seeded random 1..64 sequences, with and without interleaved Interrupted errors; six of them sinks with their own gathering write_vectored accepting 1/17/100/300/1000/random bytes per call), plus the no-failure run of each family; Package::parse from scripted sources (same families x BufReader capacities 1/7/64/8192) and from EVERY truncation offset. Non-trivial = a sink script with a short accept or a fault before the end / a source with short reads / a truncation; distinct by construction.", self.bases.len())
     }
     fn assumptions(&self) -> Vec<String> {
         vec!["canonical bytes = write into a Vec; the sinks obey the Write contract (accept >= 1 byte of a non-empty buffer unless they fail)".into()]
     }
     fn required_labels(&self, _t: Tier) -> Vec<&'static str> {
-        vec!["write-ok-short-accepts", "write-failed-at-offset", "read-chunked", "truncated-before-payload", "interrupted"]
+        vec!["vectored-sink", "write-ok-short-accepts", "write-failed-at-offset", "read-chunked", "truncated-before-payload", "interrupted"]
     }
     fn phases(&self, _tier: Tier) -> Vec<Phase<C14Case>> {
         let bases = Arc::new(self.bases.clone());
@@ -178,18 +230,18 @@ impl Property for C14 {
                     let fam = (j % FAMILIES.len() as u64) as usize;
                     let f = j / FAMILIES.len() as u64;
                     let fail_at = if f == 0 { None } else { Some((f - 1) as u32) };
-                    Some(C14Case::Write { base, metadata_only, chunk: FAMILIES[fam].0.clone(), interrupt_every: FAMILIES[fam].1, fail_at })
+                    Some(C14Case::Write { base, metadata_only, chunk: FAMILIES[fam].0.clone(), interrupt_every: FAMILIES[fam].1, fail_at, vectored: FAMILIES[fam].2 })
                 }),
             },
             Phase::Enumerate {
                 name: "read-chunked",
-                total: nb * FAMILIES.len() as u64 * 4,
+                total: nb * 10 * 4,
                 exhaustive: true,
                 gen: Arc::new(move |i| {
                     let base = b2[(i % nb) as usize];
                     let j = i / nb;
-                    let fam = (j % FAMILIES.len() as u64) as usize;
-                    let bufcap = [1u16, 7, 64, 8192][(j / FAMILIES.len() as u64) as usize % 4];
+                    let fam = (j % 10) as usize;
+                    let bufcap = [1u16, 7, 64, 8192][(j / 10) as usize % 4];
                     Some(C14Case::Read { base, chunk: FAMILIES[fam].0.clone(), interrupt_every: FAMILIES[fam].1, bufcap })
                 }),
             },
@@ -214,7 +266,7 @@ impl Property for C14 {
 fn inner(case: &C14Case, o: &mut Outcome) -> Result<(), (String, String)> {
     let p = pool();
     match case {
-        C14Case::Write { base, metadata_only, chunk, interrupt_every, fail_at } => {
+        C14Case::Write { base, metadata_only, chunk, interrupt_every, fail_at, vectored } => {
             let bytes = &p[*base as usize % p.len()].bytes;
             let pkg = rpm::Package::parse(&mut &bytes[..]).map_err(|e| ("harness-pool".to_string(), e.to_string()))?;
             let mut canonical = Vec::new();
@@ -223,12 +275,15 @@ fn inner(case: &C14Case, o: &mut Outcome) -> Result<(), (String, String)> {
             } else {
                 pkg.write(&mut canonical).map_err(|e| ("harness-pool".to_string(), e.to_string()))?;
             }
-            let mut sink = Sink { data: vec![], chunk: chunk.clone(), state: if let Chunk::Seeded(s) = chunk { *s } else { 0 }, calls: 0, interrupt_every: *interrupt_every, fail_at: fail_at.map(|f| f as usize), short_accepts: 0 };
+            if *vectored {
+                o.label("vectored-sink");
+            }
+            let mut sink = Sink { vectored: *vectored, data: vec![], chunk: chunk.clone(), state: if let Chunk::Seeded(s) = chunk { *s } else { 0 }, calls: 0, interrupt_every: *interrupt_every, fail_at: fail_at.map(|f| f as usize), short_accepts: 0 };
             let r = panics::catch(|| if *metadata_only { pkg.metadata.write(&mut sink) } else { pkg.write(&mut sink) });
             if *interrupt_every > 0 {
                 o.label("interrupted");
             }
-            let what = format!("{} into sink(chunk {:?}, interrupt every {}, fail at {:?})", if *metadata_only { "PackageMetadata::write" } else { "Package::write" }, chunk, interrupt_every, fail_at);
+            let what = format!("{} into sink(chunk {:?}, interrupt every {}, fail at {:?}{})", if *metadata_only { "PackageMetadata::write" } else { "Package::write" }, chunk, interrupt_every, fail_at, if *vectored { ", own write_vectored" } else { "" });
             match r {
                 Err(pn) => return Err(("write-panic".into(), format!("{what}: {pn}"))),
                 Ok(Ok(())) => {
